@@ -11,5 +11,4 @@ pub mod hash_map {
     use hashbrown::hash_map;
 
     pub type Iter<'a, K, V> = hash_map::Iter<'a, K, V>;
-    pub type ExtractIf<'a, K, V, F> = hash_map::ExtractIf<'a, K, V, F>;
 }
